@@ -15,7 +15,7 @@
       handled once (its tokens are removed from the work list when it is visited), so EVERY `ord` yields a
       permutation of the partitions of the set, and every permutation is some `ord`.
   An input that the Go code cannot take in the current state (a token while the loop sits in waitForSpace, a
-  second set while the bridge still holds one, an empty buffer, a response without a set) leaves the state
+  second set while the bridge still holds one, a response without a set) leaves the state
   unchanged and yields `[disabled]`.
 
   Not modelled: the flush timer and size accounting (they only decide WHEN `handover` / `overflow` happen),
@@ -110,10 +110,12 @@ def recv (max : Nat) (s : St) (t : Tok) (overflow : Bool) : St × List Action :=
   else ({ s with buffer := s.buffer ++ [t] }, [.add t.id t.part])
 
 /-- the `case output <- bp.buffer` arms (run, shutdown, waitForSpace) followed by rollOver.  The bridge goroutine
-    takes a set only when it is idle, i.e. after the run loop has received the previous response. -/
+    takes a set only when it is idle, i.e. after the run loop has received the previous response.
+    The buffer may be EMPTY: the `continue` statements of the message arm skip the re-computation of `output` at
+    the bottom of the loop, so after waitForSpace has handled a response that emptied the buffer and the held
+    message was bounced, the stale `output` channel is still armed and an empty set goes to the broker. -/
 def handover (s : St) : St × List Action :=
   if !s.sets.isEmpty then (s, [.disabled])
-  else if s.buffer.isEmpty then (s, [.disabled])
   else match s.wait with
     | none => ({ s with sets := [s.buffer], buffer := [] }, [])
     | some t => ({ s with sets := [s.buffer], buffer := [t], wait := none }, [.add t.id t.part])
